@@ -238,6 +238,9 @@ HISTORIES = ["never-connected", "greeting-NO", "greeting-silence", "starttls-ref
              "authenticated-then-reconnect-auth-NO", "authenticated-then-reconnect-greeting-BYE"]
 
 
+PREP = [0]
+
+
 def prepare(history):
     """-> (session, description). The session's server is the *current* connection."""
     users = {LOGIN.encode(): PW.encode()}
@@ -256,7 +259,13 @@ def prepare(history):
         s.call("connect", LOGIN, PW, starttls=True)
         return s, None
     if history in ("auth-NO", "auth-BYE"):
-        s = mslab.Session(ms.Server(users=users, faults={"auth-verdict": history[5:]}))
+        srv0 = ms.Server(users=users, faults={"auth-verdict": history[5:]})
+        PREP[0] += 1
+        if PREP[0] % 2:
+            # the refusal worded as the server likes (protocol look-alikes, legacy charsets)
+            srv0.lookalike_texts = True
+            srv0.rng = random.Random(PREP[0])
+        s = mslab.Session(srv0)
         s.call("connect", LOGIN, PW)
         return s, None
     s = mslab.Session(ms.Server(users=users, scripts={b"s": b"keep;\r\n"}))
